@@ -71,68 +71,52 @@ fn c20_radix_oct_value() {
     check_radix_value::<8>(&buf[..len]);
 }
 
-fn check_radix_cut<const RADIX: u8, const PREFIX: usize, const TOTAL: usize>() {
-    // PREFIX concrete '1' digits followed by (TOTAL - PREFIX) arbitrary bytes, concrete total length: the 128-bit
-    // cut (32 hex / 42 octal digits) falls inside the arbitrary region, so a multi-byte character can straddle it.
-    let mut buf = [b'1'; TOTAL];
-    let mut i = PREFIX;
-    while i < TOTAL {
-        buf[i] = kani::any();
+fn check_radix_cut<const RADIX: u8, const PREFIX: usize>() {
+    // PREFIX concrete '1' digits followed by ONE arbitrary character (any scalar value, 1-4 bytes): with
+    // PREFIX = 31 (hex) / 41 (octal) the 128-bit cut (byte 32 / 42) falls inside that character whenever it is
+    // multi-byte. The string is built by pushes so that the prefix bytes stay concrete for CBMC.
+    let mut st = String::with_capacity(PREFIX + 8);
+    let mut i = 0;
+    while i < PREFIX {
+        st.push('1');
         i += 1;
     }
-    let Ok(s) = core::str::from_utf8(&buf) else { return };
-    let all_digits = {
-        let mut ok = true;
-        let mut k = PREFIX;
-        while k < TOTAL {
-            if ref_digit(buf[k], RADIX as u32).is_none() {
-                ok = false;
-            }
-            k += 1;
-        }
-        ok
-    };
-    let got = parse_num_radix::<RADIX>(s);
+    let c: char = kani::any();
+    st.push(c);
+    let is_digit = c.to_digit(RADIX as u32).is_some();
+    let got = parse_num_radix::<RADIX>(&st);
     match got {
         Ok(x) => {
-            assert!(all_digits, "Ok only for digit strings");
+            assert!(is_digit, "Ok only for digit strings");
             assert!(x.is_finite() && x > 0.0, "finite positive value");
-            kani::cover!(true, "digit string beyond the cut accepted");
+            kani::cover!(true, "digit string reaching the cut accepted");
         }
-        Err(ParseNumRadixError::InvalidDigit(c)) => {
-            assert!(!all_digits, "InvalidDigit only if there is a non-digit");
-            kani::cover!(c as u32 > 0x7F, "multi-byte character around the 128-bit cut");
+        Err(ParseNumRadixError::InvalidDigit(bad)) => {
+            assert!(!is_digit && bad == c, "the offending character is reported");
+            kani::cover!(c.len_utf8() == 2, "two-byte character straddling the 128-bit cut");
+            kani::cover!(c.len_utf8() == 4, "four-byte character straddling the 128-bit cut");
         }
         Err(_) => assert!(false, "neither empty nor overflowing"),
     }
+    core::mem::forget(st);
 }
 
-// @harness id=c20_radix_hex_cut props=C20,C18,C01 tier=quick cap=1500
-// @desc parse_num_radix::<16> (std.parseHex) on 31 hex digits followed by 2 arbitrary bytes (valid UTF-8): no panic although the 32-digit (128-bit) cut falls inside the arbitrary region (a two-byte character straddles byte 32); Ok iff all digits, otherwise the offending character is reported
-// @bound 31 fixed digits + 2 arbitrary bytes (length 33); unwind 36
+// @harness id=c20_radix_hex_cut props=C20,C18,C01:thorough tier=thorough cap=5400 mem=40
+// @desc parse_num_radix::<16> (std.parseHex) on 31 hex digits followed by one arbitrary character: no panic although for a multi-byte character the 32-digit (128-bit) cut at byte 32 falls inside it; Ok iff it is a hex digit, otherwise exactly that character is reported
+// @bound 31 fixed digits + one arbitrary Unicode scalar value; unwind 36
 // @funcs parse_num_radix::<16>
 #[kani::proof]
 #[kani::unwind(36)]
 fn c20_radix_hex_cut() {
-    check_radix_cut::<16, 31, 33>();
+    check_radix_cut::<16, 31>();
 }
 
-// @harness id=c20_radix_hex_cut3 props=C20,C18 tier=thorough cap=2700
-// @desc as c20_radix_hex_cut with 30 fixed digits + 3 arbitrary bytes (a three-byte character straddling byte 32)
-// @bound 30 fixed digits + 3 arbitrary bytes
-// @funcs parse_num_radix::<16>
-#[kani::proof]
-#[kani::unwind(36)]
-fn c20_radix_hex_cut3() {
-    check_radix_cut::<16, 30, 33>();
-}
-
-// @harness id=c20_radix_oct_cut props=C20,C18,C01:thorough tier=quick cap=1500
-// @desc parse_num_radix::<8> (std.parseOctal) on 41 octal digits followed by 2 arbitrary bytes: no panic around the 42-digit cut; Ok iff all digits
-// @bound 41 fixed digits + 2 arbitrary bytes (length 43); unwind 46
+// @harness id=c20_radix_oct_cut props=C20,C18,C01:thorough tier=thorough cap=5400 mem=40
+// @desc parse_num_radix::<8> (std.parseOctal) on 41 octal digits followed by one arbitrary character: no panic around the 42-digit cut at byte 42; Ok iff it is an octal digit
+// @bound 41 fixed digits + one arbitrary Unicode scalar value; unwind 46
 // @funcs parse_num_radix::<8>
 #[kani::proof]
 #[kani::unwind(46)]
 fn c20_radix_oct_cut() {
-    check_radix_cut::<8, 41, 43>();
+    check_radix_cut::<8, 41>();
 }
